@@ -498,10 +498,10 @@ func checkC01(p *core.Program, r *core.Report) {
 			"the exit a step leaves by does not come from the node's router result or its first exit")
 		// the returned exit is the node exit whose UUID equals the one left by
 		retOK := false
-		matches := func(conds []core.CondEdge) bool {
+		matches := func(conds []core.CondEdge, target ssa.Value) bool {
 			for _, ce := range conds {
 				if bo, ok := ce.Cond.(*ssa.BinOp); ok && bo.Op == token.EQL && ce.Taken {
-					if canon(bo.Y) == canon(arg) || canon(bo.X) == canon(arg) {
+					if canon(bo.Y) == canon(target) || canon(bo.X) == canon(target) {
 						return true
 					}
 				}
@@ -509,9 +509,10 @@ func checkC01(p *core.Program, r *core.Report) {
 			return false
 		}
 		// every non-nil exit that can be returned was selected on the edge where its UUID equals the one left by
-		// (directly at the return, or as the value a result variable was given before the loop was left)
-		var selected func(v ssa.Value, at *ssa.BasicBlock, depth int) (bool, int)
-		selected = func(v ssa.Value, at *ssa.BasicBlock, depth int) (bool, int) {
+		// (directly at the return, or as the value a result variable was given before the loop was left); target is the
+		// value the UUID is compared with in the function being looked at
+		var selected func(v ssa.Value, at *ssa.BasicBlock, depth int, target ssa.Value) (bool, int)
+		selected = func(v ssa.Value, at *ssa.BasicBlock, depth int, target ssa.Value) (bool, int) {
 			if core.IsNilConst(v) || depth > 4 {
 				return true, 0
 			}
@@ -522,11 +523,11 @@ func checkC01(p *core.Program, r *core.Report) {
 						continue
 					}
 					pr := ph.Block().Preds[i]
-					ok2, k := selected(e, pr, depth+1)
+					ok2, k := selected(e, pr, depth+1, target)
 					if !ok2 {
 						// the edge itself may carry the test
 						if iff, isIf := pr.Instrs[len(pr.Instrs)-1].(*ssa.If); isIf && pr.Succs[0] != pr.Succs[1] && !core.IsNilConst(e) {
-							if matches([]core.CondEdge{{Cond: iff.Cond, Taken: pr.Succs[0] == ph.Block(), If: iff}}) {
+							if matches([]core.CondEdge{{Cond: iff.Cond, Taken: pr.Succs[0] == ph.Block(), If: iff}}, target) {
 								ok2, k = true, 1
 							}
 						}
@@ -538,13 +539,45 @@ func checkC01(p *core.Program, r *core.Report) {
 				}
 				return all, n
 			}
-			return matches(core.ControllingConds(at)), 1
+			// the search extracted into a helper of the same package that is handed the UUID left by: every exit the
+			// helper can return must have been selected, inside it, on the edge where its UUID equals that parameter
+			call, idx := (*ssa.Call)(nil), 0
+			switch x := v.(type) {
+			case *ssa.Call:
+				call = x
+			case *ssa.Extract:
+				call, _ = x.Tuple.(*ssa.Call)
+				idx = x.Index
+			}
+			if call != nil {
+				if g := call.Call.StaticCallee(); g != nil && len(g.Blocks) > 0 && core.FuncPkgPath(g) == core.FuncPkgPath(e.pick) && len(g.Params) == len(call.Call.Args) {
+					for k, a := range call.Call.Args {
+						if canon(a) != canon(target) {
+							continue
+						}
+						all, n := true, 0
+						for _, ret := range core.Returns(g) {
+							if idx >= len(ret.Results) {
+								all = false
+								continue
+							}
+							ok2, m := selected(ret.Results[idx], ret.Block(), depth+1, g.Params[k])
+							if !ok2 {
+								all = false
+							}
+							n += m
+						}
+						return all && n > 0, n
+					}
+				}
+			}
+			return matches(core.ControllingConds(at), target), 1
 		}
 		nSel := 0
 		allSel := true
 		for _, ret := range core.Returns(e.pick) {
 			if len(ret.Results) == 3 {
-				ok2, k := selected(ret.Results[0], ret.Block(), 0)
+				ok2, k := selected(ret.Results[0], ret.Block(), 0, arg)
 				if !ok2 {
 					allSel = false
 				}
@@ -820,14 +853,28 @@ func checkCapturedPair(fn *ssa.Function, run ssa.Value, stepName string) string 
 
 func c01R7(p *core.Program, r *core.Report, e *engineFns) {
 	// (a) terminal push: a Run.Exit(completed) inside a range over s.runs, controlled by pushedFlow.terminal, before runs.NewRun
-	var newRun ssa.Instruction
-	for _, cs := range core.Calls(e.loop, false) {
-		if o := core.CalleeObj(cs.Common()); o != nil && core.ObjName(o) == "flows/runs.NewRun" {
-			newRun = cs.Instr
+	// the creation of the new run may sit in the loop or in a helper the push branch was extracted into
+	effCalls := core.EffectiveCalls(e.loop, 2)
+	var newRuns []core.EffCall
+	for _, ec := range effCalls {
+		if o := core.CalleeObj(ec.Inner.Common()); o != nil && core.ObjName(o) == "flows/runs.NewRun" {
+			newRuns = append(newRuns, ec)
 		}
 	}
+	// comesBefore: a can be followed by b and b does not come first on every path, judged in the function that holds
+	// both sites (the loop for sites reached through different statements, the shared helper otherwise)
+	comesBefore := func(a, b core.EffCall) bool {
+		x, y := a.Outer, b.Outer
+		if x == y {
+			x, y = a.Inner.Instr, b.Inner.Instr
+			if x.Parent() != y.Parent() {
+				return false
+			}
+		}
+		return x != y && instrReaches(x, y) && !core.InstrDominates(y, x)
+	}
 	termOK := false
-	for _, ec := range core.EffectiveCalls(e.loop, 2) {
+	for _, ec := range effCalls {
 		cs := ec.Inner
 		o := core.CalleeObj(cs.Common())
 		if o == nil || core.ObjName(o) != "flows.Run.Exit" {
@@ -866,7 +913,12 @@ func c01R7(p *core.Program, r *core.Report, e *engineFns) {
 			}
 			extra = ce.Cond.String()
 		}
-		before := newRun != nil && instrReaches(ec.Outer, newRun) && !core.InstrDominates(newRun, ec.Outer)
+		before := len(newRuns) > 0
+		for _, nr := range newRuns {
+			if !comesBefore(ec, nr) {
+				before = false
+			}
+		}
 		if underTerminal && extra == "" && before {
 			termOK = true
 		}
@@ -930,38 +982,183 @@ func c01R7(p *core.Program, r *core.Report, e *engineFns) {
 	// wait is begun, no status is set and no exit is picked
 	bad := ""
 	edges := 0
-	res := core.ExplorePaths(e.visit, core.PathRules{
-		LoopBound: 2,
-		OnEdge: func(s *core.PathState, cond ssa.Value, taken bool) {
-			bo, ok := cond.(*ssa.BinOp)
-			if !ok {
-				return
+	truncated := false
+	stops := map[string]bool{"Begin": true, "SetStatus": true, "pickNodeExit": true, "Execute": true, "Route": true, "Leave": true}
+	calleeName := func(cc *ssa.CallCommon) string {
+		if cc.IsInvoke() {
+			return cc.Method.Name()
+		} else if f := cc.StaticCallee(); f != nil {
+			return f.Name()
+		}
+		return ""
+	}
+	// nilness of a non-boolean value on this path, as recorded when the helper call that produced it was summarised
+	nilFact := func(s *core.PathState, v ssa.Value) core.AB {
+		for i := len(s.Effects) - 1; i >= 0; i-- {
+			if ef := s.Effects[i]; ef.Kind == "NIL" && ef.Instr == v.(ssa.Instruction) {
+				return ef.Data.(core.AB)
 			}
-			s1, _ := core.ConstString(bo.X)
-			s2, _ := core.ConstString(bo.Y)
-			if (s1 == "failed" || s2 == "failed") && ((bo.Op == token.EQL && taken) || (bo.Op == token.NEQ && !taken)) {
-				edges++
-				s.Effects = append(s.Effects, core.Effect{Kind: "FAILED"})
+		}
+		return core.Unk
+	}
+	// a helper of the engine package the action loop may have been extracted into is summarised by exploring it with the
+	// same rules: one outcome per (did it take the failed-run edge, abstract value of each result: booleans by truth,
+	// the others by nilness); the caller then continues per outcome, its tests of the results decided by the summary
+	type outcome struct {
+		failed  bool
+		results []core.AB
+	}
+	summaries := map[*ssa.Function][]outcome{}
+	var rules func(depth int, exits func(s *core.PathState, ret *ssa.Return)) core.PathRules
+	summarise := func(g *ssa.Function, depth int) []outcome {
+		if outs, ok := summaries[g]; ok {
+			return outs
+		}
+		summaries[g] = nil // recursion: no summary
+		var outs []outcome
+		seen := map[string]bool{}
+		res := core.ExplorePaths(g, rules(depth, func(s *core.PathState, ret *ssa.Return) {
+			o := outcome{failed: s.Has("FAILED")}
+			for _, v := range ret.Results {
+				a := core.Unk
+				if b, isB := v.Type().Underlying().(*types.Basic); isB && b.Info()&types.IsBoolean != 0 {
+					a = s.Val(v)
+				} else if core.IsNilConst(v) {
+					a = core.True
+				} else if _, isI := v.(ssa.Instruction); isI {
+					a = nilFact(s, v)
+				}
+				o.results = append(o.results, a)
 			}
-		},
-		OnCall: func(s *core.PathState, c ssa.CallInstruction) []core.CallOutcome {
-			if !s.Has("FAILED") {
-				return nil
+			if k := fmt.Sprint(o); !seen[k] {
+				seen[k] = true
+				outs = append(outs, o)
 			}
-			cc := c.Common()
-			name := ""
-			if cc.IsInvoke() {
-				name = cc.Method.Name()
-			} else if f := cc.StaticCallee(); f != nil {
-				name = f.Name()
-			}
-			switch name {
-			case "Begin", "SetStatus", "pickNodeExit", "Execute", "Route", "Leave":
-				bad = fmt.Sprintf("%s is called after an action failed the run (blocks %v)", name, s.Blocks)
-			}
-			return nil
-		},
-	})
+		}))
+		if res.Truncated {
+			truncated = true
+		}
+		summaries[g] = outs
+		return outs
+	}
+	rules = func(depth int, exits func(s *core.PathState, ret *ssa.Return)) core.PathRules {
+		return core.PathRules{
+			LoopBound: 2,
+			OnEdge: func(s *core.PathState, cond ssa.Value, taken bool) {
+				bo, ok := cond.(*ssa.BinOp)
+				if !ok {
+					return
+				}
+				s1, _ := core.ConstString(bo.X)
+				s2, _ := core.ConstString(bo.Y)
+				if (s1 == "failed" || s2 == "failed") && ((bo.Op == token.EQL && taken) || (bo.Op == token.NEQ && !taken)) {
+					edges++
+					s.Effects = append(s.Effects, core.Effect{Kind: "FAILED"})
+				}
+			},
+			OnCall: func(s *core.PathState, c ssa.CallInstruction) []core.CallOutcome {
+				cc := c.Common()
+				name := calleeName(cc)
+				if s.Has("FAILED") && stops[name] {
+					bad = fmt.Sprintf("%s is called after an action failed the run (blocks %v)", name, s.Blocks)
+				}
+				g := cc.StaticCallee()
+				if g == nil || len(g.Blocks) == 0 || c.Value() == nil || stops[name] || depth >= 2 || core.FuncPkgPath(g) != core.FuncPkgPath(e.visit) {
+					return nil
+				}
+				if s.Has("FAILED") {
+					// the run has failed already: nothing the helper does on the run's behalf may be one of the calls
+					for _, ec := range core.EffectiveCalls(g, 2) {
+						if n := calleeName(ec.Inner.Common()); stops[n] {
+							bad = fmt.Sprintf("%s is called (in %s) after an action failed the run (blocks %v)", n, g.Name(), s.Blocks)
+						}
+					}
+					return nil
+				}
+				outs := summarise(g, depth+1)
+				anyFailed := false
+				for _, o := range outs {
+					anyFailed = anyFailed || o.failed
+				}
+				if !anyFailed {
+					return nil
+				}
+				var cos []core.CallOutcome
+				for _, o := range outs {
+					co := core.CallOutcome{Effects: []core.Effect{{Kind: "RET", Instr: c, Data: o.results}}}
+					if o.failed {
+						co.Effects = append(co.Effects, core.Effect{Kind: "FAILED"})
+					}
+					if len(o.results) == 1 {
+						if b, isB := c.Value().Type().Underlying().(*types.Basic); isB && b.Info()&types.IsBoolean != 0 {
+							co.Result = o.results[0]
+						} else {
+							co.Effects = append(co.Effects, core.Effect{Kind: "NIL", Instr: c, Data: o.results[0]})
+						}
+					}
+					cos = append(cos, co)
+				}
+				return cos
+			},
+			OnInstr: func(s *core.PathState, in ssa.Instruction) {
+				// a component of a summarised helper's result tuple takes the abstract value of this outcome
+				ext, ok := in.(*ssa.Extract)
+				if !ok {
+					return
+				}
+				for i := len(s.Effects) - 1; i >= 0; i-- {
+					ef := s.Effects[i]
+					if ef.Kind != "RET" || ssa.Value(ext.Tuple) != ef.Instr.(ssa.Value) {
+						continue
+					}
+					rs := ef.Data.([]core.AB)
+					if ext.Index >= len(rs) {
+						return
+					}
+					if b, isB := ext.Type().Underlying().(*types.Basic); isB && b.Info()&types.IsBoolean != 0 {
+						if rs[ext.Index] != core.Unk {
+							s.Vals[ext] = rs[ext.Index]
+						}
+					} else {
+						s.Effects = append(s.Effects, core.Effect{Kind: "NIL", Instr: ext, Data: rs[ext.Index]})
+					}
+					return
+				}
+			},
+			OnBranch: func(s *core.PathState, cond ssa.Value) core.AB {
+				// `err != nil` on a result whose nilness this outcome of the helper fixes
+				bo, ok := cond.(*ssa.BinOp)
+				if !ok || (bo.Op != token.EQL && bo.Op != token.NEQ) {
+					return core.Unk
+				}
+				other := bo.X
+				if core.IsNilConst(bo.X) {
+					other = bo.Y
+				} else if !core.IsNilConst(bo.Y) {
+					return core.Unk
+				}
+				if _, isI := other.(ssa.Instruction); !isI {
+					return core.Unk
+				}
+				switch nilFact(s, other) {
+				case core.True:
+					return boolAB(bo.Op == token.EQL)
+				case core.False:
+					return boolAB(bo.Op == token.NEQ)
+				}
+				return core.Unk
+			},
+			OnExit: func(s *core.PathState, ret *ssa.Return, pan *ssa.Panic) {
+				if ret != nil && exits != nil {
+					exits(s, ret)
+				}
+			},
+		}
+	}
+	res := core.ExplorePaths(e.visit, rules(0, nil))
+	if truncated {
+		res.Truncated = true
+	}
 	r.Check(bad == "" && edges > 0 && !res.Truncated, "R7", "visitNode/failed-action-stops-node", p.Pos(e.visit.Pos()),
 		fmt.Sprintf("%d paths: nothing but a return follows the failed-run edge", res.Paths), "a run failed by one of its actions keeps executing: "+bad)
 }
